@@ -127,6 +127,15 @@ namespace TrRouting
         cNode::Reader capnpT = capnpTMessage.getRoot<cNode>();
         const unsigned int transferableNodesCount {capnpT.getTransferableNodesUuids().size()};
 
+        // The travel times and distances are indexed like the uuids: they must be at least as many
+        if (capnpT.getTransferableNodesTravelTimes().size() < transferableNodesCount
+            || capnpT.getTransferableNodesDistances().size() < transferableNodesCount)
+        {
+          spdlog::error("-- Error reading node cache file -- {}: fewer travel times or distances than transferable nodes", nodeCacheFileNamePath);
+          close(fd);
+          return -EBADMSG;
+        }
+
         std::vector<NodeTimeDistance> transferableNodes;
         std::vector<NodeTimeDistance> reverseTransferableNodes;
 
@@ -145,6 +154,11 @@ namespace TrRouting
           
           int travelTime = capnpT.getTransferableNodesTravelTimes()[j];
           int distance = capnpT.getTransferableNodesDistances()[j];
+          if (travelTime < 0) {
+            // a walk cannot take a negative time: the calculations rely on time never going backwards
+            spdlog::error("Invalid travel time ({}) to transferable node {} in file {}", travelTime, nodeUuidStr, nodeCacheFileNamePath);
+            continue;
+          }
           transferableNodes.push_back(NodeTimeDistance(ts.at(nodeUuid),
                                                        travelTime,
                                                        distance));
